@@ -183,10 +183,11 @@ class Ex:
                     self.semicolon_seen = True
                     if v == 0:
                         raise Unknown('0;')
-                    if not (1 <= v <= self.n()):
-                        raise Reject('bad address')
-                    cur1 = v
-                    self.semicolon_cur = v - 1
+                    if 1 <= v <= self.n():
+                        cur1 = v
+                        self.semicolon_cur = v - 1
+                    # (an address that is out of range moves nothing; whether the command is rejected is decided by the
+                    # last two addresses, below - with three or more addresses the earlier ones only serve to move the current line)
                 i += 1
                 continue
             break
